@@ -8,8 +8,8 @@ package config
 //	    policies found were declared for that very pattern (and, per method, only there), and the extracted path
 //	    parameters are the request's segments at the parameter positions.
 //
-// Exhaustive over: every set of 1..3 declarations out of 13 patterns (10 distinct, two repeated for a second method, one written with a trailing slash) under one host (literals, one-segment parameters,
-// trailing wildcards, overlapping), with methods GET/POST assigned by position, EVERY order of the set, 9 request URLs.
+// Exhaustive over: every set of 1..3 declarations out of 15 patterns (11 distinct, three repeated for a second method, one written with a trailing slash, one on a host written with an upper-case letter) (literals, one-segment parameters,
+// trailing wildcards, overlapping), with methods GET/POST assigned by position, EVERY order of the set, 10 request URLs.
 // The REAL BuildEndpointPolicyTree and Lookup run; the matcher used as oracle for "matches" is independent (segment by
 // segment). Labelled bounded: never counted as proved.
 
@@ -63,8 +63,8 @@ func c13Perms(n int) [][]int {
 
 func TestBoundedC13DeclarationOrderAndOwnPattern(t *testing.T) {
 	// (two patterns appear twice: the same pattern declared for two methods)
-	patterns := []string{"a.com", "a.com/*", "a.com/x", "a.com/{p}", "a.com/x/*", "a.com/x/y", "a.com/{p}/y", "a.com/x/{q}", "a.com/{p}/*", "a.com/x/y/*", "a.com/*", "a.com/x", "a.com/x/"}
-	urls := []string{"a.com", "a.com/x", "a.com/y", "a.com/x/y", "a.com/y/y", "a.com/x/z", "a.com/y/z", "a.com/x/y/z", "a.com/y/z/w"}
+	patterns := []string{"a.com", "a.com/*", "a.com/x", "a.com/{p}", "a.com/x/*", "a.com/x/y", "a.com/{p}/y", "a.com/x/{q}", "a.com/{p}/*", "a.com/x/y/*", "a.com/*", "a.com/x", "a.com/x/", "B.com/x", "B.com/x"}
+	urls := []string{"B.com/x", "a.com", "a.com/x", "a.com/y", "a.com/x/y", "a.com/y/y", "a.com/x/z", "a.com/y/z", "a.com/x/y/z", "a.com/y/z/w"}
 	methods := []string{"GET", "POST", "GET"}
 	checked := 0
 	var sets [][]int
